@@ -64,8 +64,9 @@ func fsErr(err error) string {
 
 // Runner interprets the Fs-level script language of DESIGN.md §3.1 on any afero stack.
 type Runner struct {
-	Fs afero.Fs
-	H  []afero.File
+	Fs  afero.Fs
+	Src afero.Fs // optional: lines prefixed "src." act on it (same handle table)
+	H   []afero.File
 	T0 time.Time // script times are offsets (seconds) from T0
 }
 
@@ -96,6 +97,12 @@ func infoLine(fi os.FileInfo) string {
 
 // Exec runs one script line (already split) and returns the canonical result line.
 func (r *Runner) Exec(t []string) string {
+	if strings.HasPrefix(t[0], "src.") && r.Src != nil {
+		saved := r.Fs
+		r.Fs = r.Src
+		defer func() { r.Fs = saved }()
+		t = append([]string{strings.TrimPrefix(t[0], "src.")}, t[1:]...)
+	}
 	arg := func(i int) string { return string(corr.UnHex(t[i])) }
 	switch t[0] {
 	case "now":
@@ -308,4 +315,20 @@ func SnapLine(ns []Node) string {
 		parts = append(parts, fmt.Sprintf("%s:%s:%d:%d:%s:%s", corr.HexS(n.Path), k, size, n.Mode, corr.Hex(n.Data), strings.Join(ls, ",")))
 	}
 	return "snap " + strings.Join(parts, "|")
+}
+
+// FullSnapshot is the frozen-layer oracle's view of a filesystem: every path with kind, bytes,
+// mode and modification time (MemMapFs: every key of the path map; otherwise a walk from root).
+func FullSnapshot(fs afero.Fs, root string) string {
+	var ns []Node
+	if _, ok := fs.(*afero.MemMapFs); ok {
+		ns = SnapshotMem(fs)
+	} else {
+		ns = SnapshotWalk(fs, root)
+	}
+	var b strings.Builder
+	for _, n := range ns {
+		fmt.Fprintf(&b, "%s|%v|%d|%o|%x|%d|%s\n", n.Path, n.Dir, n.Size, n.Mode, n.Data, n.MTime, strings.Join(n.Listing, ","))
+	}
+	return b.String()
 }
